@@ -29,8 +29,8 @@ Definition mm_prints : list (string * string) := [
   ("qbytes_int_mm"%string, "fa2242f24d4c6d82"%string);
   ("qbytes_int8pack_mm"%string, "3af7658212612eb6"%string);
   ("qbytes_mm_impl_default"%string, "5d41f850f7a5b9d8"%string);
-  ("aten.mm"%string, "be35f6f78a403628"%string);
-  ("aten.bmm"%string, "d9a1b6be40fe9b26"%string);
+  ("aten.mm"%string, "a3e340b614bd939e"%string);
+  ("aten.bmm"%string, "3eb1ab1fb152c011"%string);
   ("QTensorLinear.forward"%string, "462a7dfd205c3ccc"%string);
   ("linear"%string, "047e6587fc053914"%string);
   ("QLinear.qforward"%string, "d786605ad6fb6e19"%string);
